@@ -117,3 +117,73 @@ func verifC04Schedules(K int) {
 
 func VerifHarness_C04_Schedules_3() { verifC04Schedules(3) }
 func VerifHarness_C04_Schedules_5() { verifC04Schedules(5) }
+
+// C04-O2b: the same with equal timestamps across containers (a symbolic
+// choice of which frames tie).  The reference is the real merge over readers
+// opened one after another in inventory order; the concurrent path must
+// deliver the same sequence under every completion order.
+func verifC04ScheduleTies(K int) {
+	build := func() *fakeClient {
+		fc := newFakeClient(K)
+		return fc
+	}
+	fc, ref := build(), build()
+	ref.noGate = true
+	for i := 0; i < K; i++ {
+		id := "id" + strconv.Itoa(i)
+		ctr := types.Container{ID: id, Names: []string{"/c" + strconv.Itoa(i)}, Image: "img", State: "running"}
+		// every container logs twice; first frames tie across containers when
+		// tie1, second frames when tie2
+		s1, s2 := strconv.Itoa(i), strconv.Itoa(i)
+		if vsymBool("tie_first") {
+			s1 = "0"
+		}
+		if vsymBool("tie_second") {
+			s2 = "0"
+		}
+		data := append(
+			verifFrame(1, "2024-01-02T03:04:0"+s1+"Z", "first"+strconv.Itoa(i)),
+			verifFrame(2, "2024-01-02T03:04:1"+s2+"Z", "second"+strconv.Itoa(i))...)
+		for _, f := range []*fakeClient{fc, ref} {
+			f.ctrs = append(f.ctrs, ctr)
+			f.streams = append(f.streams, data)
+		}
+	}
+	// reference: sequential opens in inventory order through the real openLog and merge
+	rq := &Querier{client: ref}
+	params := logqlengine.SelectLogsParams{
+		Labels: []logql.LabelMatcher{{Label: "container_image", Op: logql.OpEq, Value: "img"}},
+	}
+	ctrs, err := rq.fetchContainers(context.Background(), params)
+	vsymAssert(err == nil && len(ctrs) == K, "reference inventory")
+	var iters []logiter
+	for i := 0; i < K; i++ {
+		it, err := rq.openLog(context.Background(), ctrs[i], 1, 2)
+		vsymAssert(err == nil, "reference open succeeds")
+		iters = append(iters, it)
+	}
+	var want []string
+	var r logstorage.Record
+	rit := newMergeIter(iters)
+	for rit.Next(&r) {
+		want = append(want, r.Body)
+	}
+	vsymAssert(len(want) == 2*K && rit.Err() == nil, "reference merge delivers every record")
+	_ = rit.Close()
+
+	q := &Querier{client: fc}
+	vsymSchedAll()
+	it, err := q.SelectLogs(context.Background(), 1, 2, params)
+	vsymAssert(err == nil, "opening the logs of all selected containers succeeds")
+	n := 0
+	for it.Next(&r) {
+		vsymAssert(n < len(want) && r.Body == want[n], "[sched] with equal timestamps across containers the merged result does not depend on the completion order of the opens")
+		n++
+	}
+	vsymAssert(n == len(want) && it.Err() == nil, "[sched] every record of every container is delivered")
+	vsymAssert(it.Close() == nil, "close succeeds")
+	vsymReach("C04_schedule_ties")
+}
+
+func VerifHarness_C04_ScheduleTies_3() { verifC04ScheduleTies(3) }
+func VerifHarness_C04_ScheduleTies_4() { verifC04ScheduleTies(4) }
